@@ -30,10 +30,9 @@ def default_attrs(attrs: "Attributes") -> Attrs | None:
 def compute_attrs(attrs: "Attributes", value: Attrs | None) -> Attrs:
     built = {}
     for name in attrs:
-        given = None
-        if value:
-            given = value.get(name)
-        if given is None:
+        if value and name in value:
+            given = value[name]
+        else:
             attr = attrs[name]
             if attr.has_default:
                 given = attr.default
